@@ -182,3 +182,30 @@ Definition params_ok (p : params) : bool :=
 Definition zero_f (f : float) : bool :=
   match Prim2SF f with S754_zero _ => true | _ => false end.
 Definition spec_ok (p : params) : bool := params_ok p || zero_f (p_bsize p).
+
+(* ------------------------------------------------ weaker contracts (overflow cases) *)
+(* The pass only looks at valid bin numbers, so it suffices that the bin numbers are non-decreasing
+   after everything that is not a valid bin is re-labelled "beyond the last bin" (up_bin).  That
+   also covers data whose quotient is NaN or outside int64 (INT64_MIN) although they come last. *)
+Definition up_bin (nbin b : Z) : Z := if valid_bin nbin b then b else nbin.
+
+Definition contracts_w (x : list float) (lo hi : option float) (o : outcome) : Prop :=
+  let p := o_params o in
+  let bn := binnum x (p_dmin p) (p_bsize p) in
+  ordered x (o_sort o)
+  /\ o_wsort o = filter (fun k => in_limits lo hi (fget x k)) (o_sort o)
+  /\ (forall k, In k (o_wsort o) -> bn k = bin_index (p_dmin p) (p_bsize p) (fget x k))
+  /\ Sorted Z.le (map (fun k => up_bin (p_nbin p) (bn k)) (o_wsort o)).
+
+Definition contracts_w_b (x : list float) (lo hi : option float) (o : outcome) : bool :=
+  let p := o_params o in
+  let bn := binnum x (p_dmin p) (p_bsize p) in
+  ordered_b x (o_sort o)
+  && zlist_eqb (o_wsort o) (filter (fun k => in_limits lo hi (fget x k)) (o_sort o))
+  && forallb (fun k => bn k =? bin_index (p_dmin p) (p_bsize p) (fget x k)) (o_wsort o)
+  && nondecr_b (map (fun k => up_bin (p_nbin p) (bn k)) (o_wsort o)).
+
+(* an infinite bin size: binsize=inf given by the caller, or nbin mode when max - min overflows *)
+Definition posinf_f (f : float) : bool :=
+  match Prim2SF f with S754_infinity false => true | _ => false end.
+Definition spec_ok2 (p : params) : bool := spec_ok p || posinf_f (p_bsize p).
